@@ -91,11 +91,18 @@ def run_swarm(case):
                 if m.opened != 1:
                     out.fail('swarm:open-count', '%s: member %s opened %d times' % (desc, u, m.opened))
             if opened_ok:
-                try:
-                    swarm.open_links()
-                    out.fail('swarm:second-open-accepted', desc)
-                except Exception:  # noqa
-                    pass
+                for attempt in (2, 3):
+                    try:
+                        swarm.open_links()
+                        out.fail('swarm:second-open-accepted', '%s (open number %d)' % (desc, attempt))
+                    except Exception:  # noqa
+                        pass
+                    # the refused open leaves the running swarm alone
+                    for u, m in members.items():
+                        if m.closed or m.opened != 1:
+                            out.fail('swarm:refused-open-disturbs-swarm', '%s: after refused open number %d member %s opened %d closed %d times' % (
+                                desc, attempt, u, m.opened, m.closed))
+                            break
             # ---------------- actions
             shared_or_reused = False
             prev_args = None
@@ -126,6 +133,9 @@ def run_swarm(case):
                             expect_args[u] = list(vals)
                     # add an entry for a URI that is not part of the swarm
                     args_dict['radio://not-a-member'] = ['x']
+                    if call['nargs'] % 2:
+                        # the caller's dictionary need not be in the swarm's URI order
+                        args_dict = dict(reversed(list(args_dict.items())))
                 missing = call['args'] == 'missing' and call['mode'] == 'parallel' and bool(uris)
                 if missing:
                     # a dictionary that lacks one member's entry: what the members then do is not specified, only
@@ -176,6 +186,8 @@ def run_swarm(case):
                     if exc is None:
                         out.fail('swarm:sequential-swallowed-error', cdesc)
                 else:
+                    if call['mode'] == 'sequential' and exc is not None:
+                        out.fail('swarm:sequential-raised', '%s: %r' % (cdesc, exc))
                     seen = [e[1] for e in starts]
                     if sorted(seen) != sorted(uris):
                         out.fail('swarm:exactly-once', '%s: actions ran for %r' % (cdesc, seen))
